@@ -71,14 +71,22 @@ def write_if_changed(path, text):
 
 def build(targets, timeout=1500, force=()):
     """make the given .vo targets (full .vo builds). `force` lists .v files to re-check even
-    when up to date (so their Print Assumptions output is produced by this run)."""
-    ensure_makefile()
-    for f in force:
-        vo = os.path.join(COQ, f[:-2] + ".vo")
-        if os.path.exists(vo):
-            os.remove(vo)
-    rc, out = sh("timeout %d make -j%d %s" % (timeout, NCPU, " ".join(targets)), cwd=COQ, timeout=timeout + 30)
-    return rc, out
+    when up to date (so their Print Assumptions output is produced by this run).
+    Serialised across concurrent checks by a file lock (make rewrites .Makefile.d)."""
+    import fcntl
+    lock = open(os.path.join(COQ, ".build.lock"), "w")
+    fcntl.flock(lock, fcntl.LOCK_EX)
+    try:
+        ensure_makefile()
+        for f in force:
+            vo = os.path.join(COQ, f[:-2] + ".vo")
+            if os.path.exists(vo):
+                os.remove(vo)
+        rc, out = sh("timeout %d make -j%d %s" % (timeout, NCPU, " ".join(targets)), cwd=COQ, timeout=timeout + 30)
+        return rc, out
+    finally:
+        fcntl.flock(lock, fcntl.LOCK_UN)
+        lock.close()
 
 
 def props_report(out, props_file):
